@@ -1,6 +1,7 @@
 package scen
 
 import (
+	"crypto/sha256"
 	"fmt"
 	"math/big"
 	"sort"
@@ -8,6 +9,7 @@ import (
 	"github.com/taurusgroup/multi-party-sig/pkg/ecdsa"
 	"github.com/taurusgroup/multi-party-sig/pkg/party"
 	"github.com/taurusgroup/multi-party-sig/pkg/protocol"
+	"github.com/taurusgroup/multi-party-sig/protocols/doerner"
 	"github.com/taurusgroup/multi-party-sig/protocols/example"
 	"github.com/taurusgroup/multi-party-sig/verif/fw"
 	"github.com/taurusgroup/multi-party-sig/verif/ref"
@@ -268,7 +270,7 @@ func ConfigDigest(p Proto, v interface{}) (string, bool) {
 	if !ok {
 		return "", false
 	}
-	s := fmt.Sprintf("cfg:%T:Y=%x:x=%x:ck=%x:t=%d", v, m.PublicKey("x").Compress(), m.Share("x").Bytes(), m.ChainKey("x"), m.Threshold("x"))
+	s := fmt.Sprintf("cfg:%T:id=%q:Y=%x:x=%x:ck=%x:t=%d", v, m.OwnID("x"), m.PublicKey("x").Compress(), m.Share("x").Bytes(), m.ChainKey("x"), m.Threshold("x"))
 	ps := m.PubShares("x")
 	var ids []string
 	for id := range ps {
@@ -279,6 +281,22 @@ func ConfigDigest(p Proto, v interface{}) (string, bool) {
 		s += fmt.Sprintf(":%s=%x", id, ps[id].Compress())
 	}
 	s += m.AuxTable("x")
+	switch c := v.(type) {
+	case *doerner.ConfigReceiver:
+		if c.Setup != nil {
+			b, _ := c.Setup.MarshalBinary()
+			s += fmt.Sprintf(":setup=%x", sha256.Sum256(b))
+		} else {
+			s += ":setup=nil"
+		}
+	case *doerner.ConfigSender:
+		if c.Setup != nil {
+			b, _ := c.Setup.MarshalBinary()
+			s += fmt.Sprintf(":setup=%x", sha256.Sum256(b))
+		} else {
+			s += ":setup=nil"
+		}
+	}
 	return s, true
 }
 
